@@ -23,6 +23,9 @@ var c08queries = []string{"", "a=b", "a=b&a=c", "x=%20y&z=%2F", "empty=", "noval
 
 const proxyTimeout = 300 * time.Millisecond
 
+// transparent exchanges that ran into the 300 ms proxy timeout and were repeated
+var timeoutRetries int
+
 // the upstream's behaviour is chosen by the request itself
 func c08behave(w http.ResponseWriter, r *http.Request, st *psim.Stamp) bool {
 	switch r.Header.Get("X-Behave") {
@@ -242,6 +245,20 @@ func runC08(rng *rand.Rand, ncases int, emit emitter) error {
 		resp, err := client.Do(req)
 		s.TookMs = int(time.Since(t0) / time.Millisecond)
 		s.LimitMs = 4000
+		for try := 0; try < 2 && err == nil && resp.StatusCode == 504 && status != 504 &&
+			time.Since(t0) >= proxyTimeout; try++ {
+			// the nodes of this scenario run with a 300 ms proxy timeout (the failure cases need a short one): on
+			// a starved machine an exchange of a megabyte may really take longer, and 504 is then the right
+			// answer. The exchange is repeated (twice at most) before it is judged.
+			_, _ = io.Copy(io.Discard, resp.Body)
+			resp.Body.Close()
+			timeoutRetries++
+			time.Sleep(200 * time.Millisecond)
+			req.Body = io.NopCloser(bytes.NewReader(body))
+			t0 = time.Now()
+			resp, err = client.Do(req)
+			s.TookMs = int(time.Since(t0) / time.Millisecond)
+		}
 		if err != nil {
 			s.Status = -1
 			s.Fields = append(s.Fields, "transport:"+err.Error())
